@@ -120,8 +120,41 @@ func specLabelsM2(n int, pos int, inPtr bool) int {
 	return n - pos + 2
 }
 
+// SpecLabelsAccept: whether the decoder accepts b at all. For the inputs the RFCs pin down this is status 0 vs status 1;
+// for the rest (status 2) it records the library's permissive choice so that callers (DHCPv6 option decoding, C05) can
+// state an exact acceptance condition.
+//@ contract SpecLabelsAccept
+//@   decreases specLabelsM1(len(b), pos, inPtr, ret), specLabelsM2(len(b), pos, inPtr)
+func SpecLabelsAccept(b string, pos int, inPtr bool, ret int) bool {
+	if pos < 0 {
+		return false
+	}
+	if pos >= len(b) {
+		return true
+	}
+	l := int(b[pos])
+	if l == 0 {
+		if inPtr {
+			return SpecLabelsAccept(b, ret, false, ret)
+		}
+		return SpecLabelsAccept(b, pos+1, false, ret)
+	}
+	if l >= 192 {
+		if inPtr || pos+2 > len(b) {
+			return false
+		}
+		return SpecLabelsAccept(b, (l-192)*256+int(b[pos+1]), true, pos+2)
+	}
+	if pos+1+l > len(b) {
+		return false
+	}
+	return SpecLabelsAccept(b, pos+1+l, inPtr, ret)
+}
+
 //@ contract labelsFromBytes
 //@   let b0 = string(buf)
+//@   ensures[accept-exact] (err == nil) == SpecLabelsAccept(b0, 0, false, 0)
+//@   loop 0 invariant[accept] SpecLabelsAccept(b0, 0, false, 0) == SpecLabelsAccept(b0, pos, handlingPointer, oldPos)
 //@   ensures[status-ok-accepted] specLabelsStatus(b0, 0, false, 0) == 0 ==> err == nil
 //@   ensures[status-malformed-rejected] specLabelsStatus(b0, 0, false, 0) == 1 ==> err != nil
 //@   ensures[names] err == nil && specLabelsStatus(b0, 0, false, 0) == 0 ==> seq(result0) == specLabels(b0, 0, "", false, 0, []string{})
@@ -226,6 +259,7 @@ func specEncNames(names []string, k int) string {
 //@ contract (*Labels).FromBytes
 //@   let b0 = string(data)
 //@   modifies l
+//@   ensures[accept-exact] (err == nil) == SpecLabelsAccept(b0, 0, false, 0)
 //@   ensures[status-ok-accepted] specLabelsStatus(b0, 0, false, 0) == 0 ==> err == nil
 //@   ensures[status-malformed-rejected] specLabelsStatus(b0, 0, false, 0) == 1 ==> err != nil
 //@   ensures[names] err == nil && specLabelsStatus(b0, 0, false, 0) == 0 ==> seq(l.Labels) == specLabels(b0, 0, "", false, 0, []string{})
@@ -234,6 +268,7 @@ func specEncNames(names []string, k int) string {
 
 //@ contract FromBytes
 //@   let b0 = string(data)
+//@   ensures[accept-exact] (err == nil) == SpecLabelsAccept(b0, 0, false, 0)
 //@   ensures[status-ok-accepted] specLabelsStatus(b0, 0, false, 0) == 0 ==> err == nil
 //@   ensures[status-malformed-rejected] specLabelsStatus(b0, 0, false, 0) == 1 ==> err != nil
 //@   ensures[result] (err == nil) == (result0 != nil)
